@@ -329,13 +329,89 @@ def _is_counter(cfg, head, name):
     return okc
 
 
+def rule_pball_is_total(eng, rep, rule="C15-2d.pball-never-divides-by-a-distance-that-can-vanish"):
+    """The ball projector is applied to points that coincide with its centre all the time (a zero model gradient: trproj(xopt); a start point that is the centre).
+    Every division in pball must therefore have a denominator that is positive for every x: max(distance, radius) with the radius positive by the callers' contract --
+    not a bare distance, which is 0 at the centre (0/0 = nan, after which `nan >= tol` is False and Dykstra stops 'by its rule')."""
+    from .common import expand_locals
+    pb = eng.fn("util.pball")
+    cfg = eng.cfg(pb)
+    radius = pb.posparams[2] if len(pb.posparams) > 2 else None
+
+    def sign(e, at, depth=4):
+        """'pos' / 'nonneg' (can be zero) / None"""
+        if isinstance(e, ast.Constant) and isinstance(e.value, (int, float)) and not isinstance(e.value, bool):
+            return "pos" if e.value > 0 else "nonneg" if e.value == 0 else None
+        if isinstance(e, ast.Name):
+            if e.id == radius:
+                return "pos"
+            if depth > 0:
+                e2 = expand_locals(cfg, at, e, depth=1)
+                if not (isinstance(e2, ast.Name) and e2.id == e.id):
+                    return sign(e2, at, depth - 1)
+            return None
+        if isinstance(e, ast.Call):
+            name = ekey(e.func).split(".")[-1]
+            args = list(e.args)
+            if name in ("max", "maximum", "amax", "fmax"):
+                if len(args) == 1 and isinstance(args[0], (ast.List, ast.Tuple)):
+                    args = list(args[0].elts)
+                ss = [sign(a, at, depth) for a in args]
+                if "pos" in ss:
+                    return "pos"
+                if "nonneg" in ss:
+                    return "nonneg"
+                return None
+            if name in ("norm", "sqrt", "abs", "fabs", "sumsq", "hypot"):
+                return "nonneg"
+            if name in ("float",) and args:
+                return sign(args[0], at, depth)
+            return None
+        if isinstance(e, ast.BinOp) and isinstance(e.op, ast.Add):
+            a, b = sign(e.left, at, depth), sign(e.right, at, depth)
+            if a and b:
+                return "pos" if "pos" in (a, b) else "nonneg"
+            return None
+        if isinstance(e, ast.BinOp) and isinstance(e.op, (ast.Mult, ast.Div)):
+            a, b = sign(e.left, at, depth), sign(e.right, at, depth)
+            if a == "pos" and b == "pos":
+                return "pos"
+            if a and b and isinstance(e.op, ast.Mult):
+                return "nonneg"
+            return None
+        if isinstance(e, ast.BinOp) and isinstance(e.op, ast.Pow):
+            a = sign(e.left, at, depth)
+            return a
+        return None
+
+    ndiv = 0
+    for n, d in cfg.g.nodes(data=True):
+        node = d["ast"]
+        if node is None or d["kind"] not in ("stmt", "cond"):
+            continue
+        for sub in ast.walk(node):
+            if isinstance(sub, ast.BinOp) and isinstance(sub.op, (ast.Div, ast.FloorDiv, ast.Mod)):
+                ndiv += 1
+                sg = sign(sub.right, node)
+                site = eng.where(pb, node if isinstance(node, ast.stmt) else cfg.stmt_of(n) or node)
+                if sg == "pos":
+                    rep.ok(rule, site, "denominator `%s` is positive for every x (it is at least the radius)" % short(sub.right, 40))
+                elif sg == "nonneg":
+                    rep.bad(rule, site, "util.pball|denominator-can-vanish|%s" % short(sub.right, 25),
+                            "`%s` divides by `%s`, a distance that is 0 when the point is the centre of the ball: the projector returns nan there (the trust-region ball is projected "
+                            "at its own centre whenever a step is zero)" % (short(sub, 50), short(sub.right, 30)))
+                else:
+                    rep.unknown(rule, site, "cannot bound the denominator `%s` away from zero" % short(sub.right, 40))
+    rep.require_count(rule, "divisions in pball", ndiv, 1)
+
+
 def run(eng, rep):
     rep.explain("C15: on util.dykstra's CFG -- counting data-flow for the sweep counter (T3), reaching definitions of the returned variable (T4), "
                 "shape and placement of the stopping accumulator, and symbolic execution of one inner iteration over affine normal forms (T7) showing that "
                 "each sub-step moves x by exactly the change of its correction vector (the two premises of the sqrt(p*tol) feasibility bound).")
     rep.explain("Also decided: tol and max_iter are never re-assigned, so the loop tests the caller's values (C15-3b); pbox is an exact two-sided clamp of its own parameters (C15-2b).")
     rep.not_decided += ["distance to each set / 1e-3 optimality / 'unchanged up to rounding' (numerical)"]
-    for r in (rule_complete_sweeps, rule_sweep_bound, rule_result_is_last_projector, rule_stopping_quantity, rule_substep_affine, rule_limits_are_the_callers,
+    for r in (rule_pball_is_total, rule_complete_sweeps, rule_sweep_bound, rule_result_is_last_projector, rule_stopping_quantity, rule_substep_affine, rule_limits_are_the_callers,
               rule_projector_argument_is_not_reused):
         try:
             r(eng, rep)
